@@ -264,7 +264,9 @@
 //@ ob stub_XBW_extractTable entry=h_stub_XBW_extractTable enforce=StringDictionaryXBW__extractTable unwind=1 tier=C props=C16,C14 kind=statement
 #define VSTREAM_NO_ARRAY_LOAD
 #include "vstream.h"
+typedef struct Codeword Codeword;
 //@ structs
+static inline Codeword *loadValue__Codeword__2(struct vstream *in, const size_t len) { __CPROVER_assert(0, "payload read reached in a slice that must return before it"); __CPROVER_assume(0); return 0; }
 //@ lowered
 void h_wrongtag_RPFC(void) { static uchar buf[64]; struct vstream in; in.buf = buf; in.pos = 0; in.cap = 64; uint32_t in_tag; uint in_opt; __CPROVER_assume(in_tag != RPFC); buf[0] = in_tag & 255; buf[1] = (in_tag >> 8) & 255; buf[2] = (in_tag >> 16) & 255; buf[3] = (in_tag >> 24) & 255; __CPROVER_assert(StringDictionaryRPFC__load(&in) == NULL, "C16: the kind's loader returns NULL for an image with another type tag"); REACH_POINT(); }
 void h_wrongtag_HTFC(void) { static uchar buf[64]; struct vstream in; in.buf = buf; in.pos = 0; in.cap = 64; uint32_t in_tag; uint in_opt; __CPROVER_assume(in_tag != HTFC); buf[0] = in_tag & 255; buf[1] = (in_tag >> 8) & 255; buf[2] = (in_tag >> 16) & 255; buf[3] = (in_tag >> 24) & 255; __CPROVER_assert(StringDictionaryHTFC__load(&in) == NULL, "C16: the kind's loader returns NULL for an image with another type tag"); REACH_POINT(); }
